@@ -56,6 +56,11 @@ func (g *chainGen) randTxs(max int) []txSpec {
 }
 
 func (g *chainGen) genesis(n int, net string, ev, twin bool, txs []txSpec) string {
+	return g.genesisK(n, net, ev, twin, txs, -1)
+}
+
+// genesisK: k >= 0 stops the first start at crash point k of the genesis block and starts again.
+func (g *chainGen) genesisK(n int, net string, ev, twin bool, txs []txSpec, k int) string {
 	cfg := make([]int, n)
 	for i := range cfg {
 		cfg[i] = i
@@ -75,6 +80,9 @@ func (g *chainGen) genesis(n int, net string, ev, twin bool, txs []txSpec) strin
 			return 1
 		}
 		return 0
+	}
+	if k >= 0 {
+		return g.r.Do(fmt.Sprintf("gcrash %d %s %d %d %s %s %d %d", n, net, bi(ev), b.ts, b.txsToken(), b.hash, bi(twin), k))
 	}
 	return g.r.Do(fmt.Sprintf("genesis %d %s %d %d %s %s %d", n, net, bi(ev), b.ts, b.txsToken(), b.hash, bi(twin)))
 }
@@ -619,4 +627,39 @@ func (f *quorumFam) handover(r *hx.Run, g *chainGen, n int) {
 		}
 	}
 	r.Do("obs")
+}
+
+// ------------------------------------------------------------------------------------------------ C12 (first start)
+
+type firstStartFam struct{ world }
+
+func init() { families["firststart"] = func() hx.Family { return &firstStartFam{} } }
+
+// Gen: the very first start of a node is stopped at each crash point of the genesis block's persistence and the node
+// is started again; then a short chain is added and the node restarted once more.
+func (f *firstStartFam) Gen(r *hx.Run) {
+	r.Rule("first start of a node (genesis block with 0-2 state-changing transactions) stopped at crash point 0..3 of the genesis block's submitBlock, second start on the same directory, compared with a ledger started without crash and with the model; then 3 blocks and a restart; distinct = (crash point, #genesis transactions>0, event log)")
+	rounds := r.Pick(2, 40)
+	for c := 0; c < rounds*4; c++ {
+		k := c % 4
+		r.Case(fmt.Sprintf("firststart-%d-k%d", c, k))
+		g := &chainGen{r: r, w: &f.world}
+		n := 1 + r.Rng.Intn(7)
+		txs := g.randTxs(2)
+		res := g.genesisK(n, "test", c%8 < 4, true, txs, k)
+		r.Hist("firststart.k" + fmt.Sprint(k) + "." + strings.SplitN(res, " ", 3)[0])
+		if !strings.HasPrefix(res, "crashed ok") {
+			continue
+		}
+		r.Nontrivial(fmt.Sprintf("k%d/tx%v/ev%v", k, len(txs) > 0, c%8 < 4))
+		for i := 0; i < 3; i++ {
+			b := g.next(2)
+			g.def(b)
+			if okRes(r.Do("add " + b.name)) {
+				g.committed(b)
+			}
+		}
+		r.Do("reopen")
+		r.Do("obs")
+	}
 }
